@@ -137,6 +137,8 @@ def generate(seed: int, tier: str = "quick") -> dict:
                 sp["bars"] = sorted(rp.randint(b + 1, nxt - 1) for _ in range(kparts - 1))  # later bars, index compensated
             o["split"] = sp
         program.append(o)
+    if A.add_bystander(R.sub(seed, "bystander"), world) is not None:
+        faults.append({"kind": "second_market_of_the_same_kind_registered_first"})
     return {"property": ID, "seed": seed, "world": world, "program": program, "faults": faults, "opts": {"twin": True}}
 
 
@@ -450,7 +452,7 @@ def execute(scenario) -> Sim:
         return sim
     if not any(o.get("split") for o in scenario["program"]):
         return sim
-    ref = RA.AaveRef(scenario["world"], scenario["world"]["markets"][0])
+    ref = RA.AaveRef(scenario["world"], A.market_of(scenario["world"]))
     yprog, inflight, cross = build_twin(scenario, ox, ref)
     sy = copy.deepcopy({k: v for k, v in scenario.items() if k not in ("program", "expect", "minimised")})
     sy["program"] = yprog
@@ -495,11 +497,11 @@ def shrink_candidates(scenario):
             c["world"]["prices"][t] = [series[0]] * len(series)
             yield c
     for col in ("liquidity_rate", "variable_borrow_rate", "stable_borrow_rate"):
-        mw = w["markets"][0]
+        mw = A.market_of(w)
         for t, series in mw.get(col, {}).items():
             if any(x != "0" for x in series):
                 c = copy.deepcopy(scenario)
-                c["world"]["markets"][0][col][t] = ["0"] * len(series)
+                A.market_of(c["world"])[col][t] = ["0"] * len(series)
                 yield c
                 break
 
